@@ -44,6 +44,7 @@ func genC20Case(r *rand.Rand, rsync bool) SDCase {
 	cur := map[string]model.Ent{}
 	n := 6 + r.Intn(10)
 	backups := 0
+	restarts := 0
 	wroteSince := false
 	dcLive := false
 	for i := 0; i < n; i++ {
@@ -92,6 +93,13 @@ func genC20Case(r *rand.Rand, rsync bool) SDCase {
 			wroteSince = false
 			c.Ops = append(c.Ops, SDOp{Kind: "backup"})
 		default:
+			// rsync mode copies the live directory: every restart flushes a memtable into a new table and the
+			// fifth table starts a background compaction that can tear the copy (listed finding). Keep rsync
+			// histories below that so that their verdict does not depend on compaction timing.
+			if rsync && restarts >= 2 {
+				continue
+			}
+			restarts++
 			if backups > 0 {
 				tags["restart-between-backups"] = true
 			}
@@ -136,7 +144,7 @@ func c20Backup(ctx *Ctx) error {
 	}
 	r := rand.New(rand.NewSource(ctx.Seed))
 	for i := 0; i < ctx.Cases; i++ {
-		rs := rsyncErr == nil && i%4 == 3 && (ctx.Tier == "thorough" || ctx.Seed%4 == 0)
+		rs := rsyncErr == nil && (ctx.Arg("rsyncall", "") != "" || (i%4 == 3 && (ctx.Tier == "thorough" || ctx.Seed%4 == 0)))
 		runC20Case(ctx, genC20Case(r, rs))
 	}
 	// a backup location that belongs to another store
@@ -302,6 +310,10 @@ func (s *sdRun) c20RestoreAndCompare(dir string, rsync bool, want map[string]str
 		}
 	}
 	rc, err := hub.TryOpenCore(rdir)
+	if err != nil && rsync && strings.Contains(err.Error(), "file does not exist for table") {
+		s.viol("C20", "rsync-copy-torn-by-background-compaction", "rsync mode: the copied directory does not open, its MANIFEST references a table file that is not in the copy (the live store was compacting while rsync ran): "+firstLine(err.Error()), nil, nil)
+		return
+	}
 	if err != nil {
 		s.viol("C20", "restore-open-failed", "the restored store does not open: "+firstLine(err.Error()), nil, err.Error())
 		return
